@@ -58,6 +58,7 @@ class Result:
         self.skipped = 0
         self.truncated = 0
         self.infra = []          # infrastructure problems (strings)
+        self.extras = []         # free-form picklable items handed to finalize (e.g. transition lists)
 
     def count(self, name, k=1):
         self.counters[name] = self.counters.get(name, 0) + k
@@ -81,6 +82,7 @@ class Aggregate(Result):
         self.truncated += r.truncated
         self.flags |= r.flags
         self.infra.extend(r.infra[:5])
+        self.extras.extend(r.extras)
         for k, v in r.counters.items():
             self.counters[k] = self.counters.get(k, 0) + v
         self.violations.extend(r.violations)
